@@ -34,6 +34,7 @@ func cmdFn(args []string) {
 	keep := fs.String("keep", "", "directory to keep failing queries")
 	dump := fs.String("dump", "", "write the full query of the first function to this file")
 	noinline := fs.Bool("noinline", false, "disable inlining")
+	doReplay := fs.Bool("replay", false, "replay sat obligations on the real code")
 	fs.Parse(args)
 	t0 := time.Now()
 	P, err := loadProgram(*repo, []string{"./..."})
@@ -85,6 +86,26 @@ func cmdFn(args []string) {
 			for _, o := range vc.obligs {
 				if o.Status != "unsat" {
 					fmt.Printf("    %-8s %s  [%s:%d] %s\n", o.Status, o.Name, o.Pos.Filename[strings.LastIndex(o.Pos.Filename, "/")+1:], o.Pos.Line, o.Solver)
+					if *doReplay && o.Status == "sat" {
+						if rr := P.replay(o, vc, *repo); rr != nil {
+							fmt.Printf("      replay: reproduced=%v %s\n", rr.Reproduced, rr.Note)
+							if rr.Reproduced {
+								for _, l := range strings.Split(rr.Test, "\n") {
+									if strings.Contains(l, " = ") && strings.HasPrefix(l, "\ta") {
+										if len(l) > 300 {
+											l = l[:300] + "..."
+										}
+										fmt.Println("        " + l)
+									}
+								}
+								for _, l := range strings.Split(rr.Output, "\n") {
+									if strings.Contains(l, "VERIF-REPLAY") {
+										fmt.Println("        " + l)
+									}
+								}
+							}
+						}
+					}
 				}
 			}
 		}
